@@ -12,7 +12,8 @@ RULE = ("A case is (protocol version, retry budget r in 1..4 via LAN.send or the
         "4-e, 4+e, 5.9} or never) or one of {all dropped, V3 error packet, garbage (random / marker-bearing partial / "
         "truncated valid packet), FIN or RST while waiting, FIN while idle, connect refused, connect hang, cancellation "
         "at a drawn instant}, at the data phase or (V3) the handshake phase. Distinct = distinct plan; non-trivial = at "
-        "least one fault or a reply delay >= 1 s actually took effect.")
+        "least one fault or a reply delay >= 1 s actually took effect."
+        " Later additions: parts 'timing_key_lifetime_straddle' (the 12 h key lifetime ends inside the retry windows) and 'two_exchanges_overlap_on_one_object' (every write attributed to its exchange by its instant); plain-OSError connect failures; fault 'dup_rejected'; an idle hang-up with unread reports, after which the exchange must succeed.")
 ASSUMPTIONS = [
     "a reply that arrives at exactly the instant a read timeout fires may be taken or missed (both accepted)",
     "the reference device accepts data under any session key it issued on the connection (lenient) so that delayed "
